@@ -1,5 +1,6 @@
 #![allow(dead_code)]
 //! `simcheck`: deterministic simulation with fault injection for dbus2/zbus.
+mod corpus;
 mod framework;
 mod kernel;
 mod net;
